@@ -18,6 +18,39 @@ func (a *Analyzer) MustWrites(fn *ssa.Function) PathSet {
 	if r, ok := a.mustMemo[fn]; ok {
 		return r
 	}
+	res := a.mustWrites(fn, false)
+	a.mustMemo[fn] = res
+	return res
+}
+
+// MustWritesResult: regions of the freshly allocated object returned as
+// result 0 that are assigned on every path to an accepting return ("R0.f").
+func (a *Analyzer) MustWritesResult(fn *ssa.Function) PathSet {
+	all := a.mustWrites(fn, true)
+	st := a.states[fn]
+	out := PathSet{}
+	if st == nil {
+		return out
+	}
+	roots := map[string]bool{}
+	for _, b := range fn.Blocks {
+		if r, ok := b.Instrs[len(b.Instrs)-1].(*ssa.Return); ok && len(r.Results) > 0 {
+			for p := range st.get(r.Results[0]) {
+				if strings.HasPrefix(p.Root(), "F:") && p.nsel() == 0 {
+					roots[p.Root()] = true
+				}
+			}
+		}
+	}
+	for p := range all {
+		if roots[p.Root()] {
+			out[p.Rebase("R0")] = true
+		}
+	}
+	return out
+}
+
+func (a *Analyzer) mustWrites(fn *ssa.Function, fresh bool) PathSet {
 	// only returns that may report success count (a decoder need not assign its
 	// receiver on the paths that return an error)
 	accepting := apo.AcceptingReturns(fn)
@@ -39,6 +72,12 @@ func (a *Analyzer) MustWrites(fn *ssa.Function) PathSet {
 			case *ssa.Store:
 				if p, ok := definiteParamPath(st.get(x.Addr)); ok {
 					g[cut3(p)] = true
+				} else if fresh {
+					if ps := st.get(x.Addr); len(ps) == 1 {
+						for p := range ps {
+							g[cut3(p)] = true
+						}
+					}
 				}
 			case ssa.CallInstruction:
 				for _, p := range a.callMustWrites(st, x) {
@@ -127,7 +166,6 @@ func (a *Analyzer) MustWrites(fn *ssa.Function) PathSet {
 	if res == nil {
 		res = PathSet{}
 	}
-	a.mustMemo[fn] = res
 	return res
 }
 
